@@ -372,6 +372,10 @@ impl<'a> DataTelegram<'a> {
             crate::consts::SD2 => {
                 let l1 = buffer[1];
                 let l2 = buffer[2];
+                if buffer[3] != crate::consts::SD2 {
+                    log::debug!("Repeated start delimiter mismatch: 0x{:02x}", buffer[3]);
+                    return Some(Err(()));
+                }
                 buffer = &buffer[3..];
                 if l1 != l2 {
                     log::debug!("Length info mismatch: {} != {}", l1, l2);
